@@ -25,6 +25,8 @@ pub struct Opts {
   pub buffer_ignore_notifier_complete: bool,
   /// take(0) completes at subscription instead of mirroring the source's terminal
   pub take0_immediate: bool,
+  /// take(0) completes when the first item arrives (a terminal that comes first is forwarded)
+  pub take0_at_first_item: bool,
 }
 
 /// cut after the first terminal
@@ -167,10 +169,16 @@ pub fn eval_un(op: &Un, t: Tl, o: Opts) -> Option<Tl> {
     Un::Tap | Un::OnComplete | Un::BoxIt | Un::Finalize | Un::CompleteStatus | Un::TrackLive => t,
     Un::Take(n) => {
       if *n == 0 {
-        // statement and docs are silent: no item ever, and the terminal is either
-        // immediate or the source's own
+        // statement and docs are silent: no item ever, and the stream ends at subscription, with the first item,
+        // or with the source's own terminal
         if o.take0_immediate {
           vec![(-1, Ev::C)]
+        } else if o.take0_at_first_item {
+          match t.first() {
+            Some((s, Ev::N(_))) => vec![(*s, Ev::C)],
+            Some((s, e)) => vec![(*s, e.clone())],
+            None => vec![],
+          }
         } else {
           pointwise(t, |_| None)
         }
